@@ -16,7 +16,8 @@ def configs(reads, psu, maxphot, th):
                           Rids={0, 1}, Convs={"Rx", "H"}, Lqs={0}, Pids={1}, LossQs={1}, SwapLevel=1, HeraldNs={0, 1}, MaxHer=(1,),
                           MaxPhot=maxphot, PSU=psu, DispMin=1)
     single4 = cc.consts_of(NUs={3}, Numeric=True, MaxLen=5, MaxRej=1, Kinds={"bs", "ps", "loss", "herald", "swap", "u"} | reads,
-                           Rids={1}, Convs={"Rx", "H"}, Lqs={0, 1}, Pids={1, 3}, LossQs={1}, SwapLevel=2, UIds={"SH", "C3"}, HeraldNs={0, 1, 2},
+                           Rids={1}, Convs={"Rx", "H"}, Lqs={0, 1}, Pids={1, 3}, LossQs={1}, SwapLevel=2, UIds={"SH", "C3"},
+                           HeraldNs={0, 1, 2} if maxphot <= 2 else {0, 1},      # <= 5 photons in all: 7 photons overflow TLC's 32-bit integers (thorough run 2)
                            MaxHer=(2,), MaxPhot=maxphot, PSU=psu, DispMin=2)
     tmpl = cc.consts_of(Scenario="tmpl", NObj=3, Targets={1, 2, 3}, PNu=3, Numeric=True, MaxLen=6, MaxAnc=3, AddPairs={(1, 2), (1, 3), (2, 3)},
                         TmplLoss=True, MaxHer=(1, 2, 1), MaxAdds=2, Kinds={"herald", "add", "probeall"} | reads, Ordered=False,
